@@ -90,6 +90,26 @@ def copy_src(expr):
     return None
 
 
+def leaves(expr):
+    """the alternatives of a (nested) conditional expression; [expr] for anything else"""
+    if isinstance(expr, ast.IfExp):
+        return leaves(expr.body) + leaves(expr.orelse)
+    return [expr]
+
+
+def fresh_expr(v):
+    """an expression that always evaluates to a NEW list (or None), whichever way it is spelled"""
+    if isinstance(v, ast.IfExp):
+        return all(fresh_expr(x) for x in leaves(v))
+    if isinstance(v, (ast.ListComp, ast.List)) or (isinstance(v, ast.Constant) and v.value is None):
+        return True
+    if isinstance(v, ast.Call) and u(v.func) in ("list", "sorted") and len(v.args) == 1:
+        return True
+    if isinstance(v, ast.BinOp) and isinstance(v.op, ast.Add):
+        return fresh_expr(v.left) and fresh_expr(v.right)
+    return False
+
+
 def is_deep(expr):
     return isinstance(expr, ast.Call) and u(expr.func) in ("deepcopy", "copy.deepcopy")
 
@@ -162,7 +182,7 @@ def translate():
     for c in gate_calls:
         args = list(c.args[1:]) + [k.value for k in c.keywords if k.arg in ("targets", "controls")]
         for a in args:
-            if isinstance(a, ast.List) or (isinstance(a, ast.Constant) and a.value is None):
+            if fresh_expr(a):
                 continue
             if isinstance(a, ast.Attribute) and u(a) in (gv + ".arg_value", gv + ".arg_label"):
                 continue
@@ -186,12 +206,13 @@ def translate():
     io_shared = False
     for k in ctor[0].keywords:
         if k.arg in ("input_states", "output_states"):
-            if u(k.value) in ("self.input_states", "self.output_states"):
-                io_shared = True
-            elif copy_src(k.value) == "self." + k.arg:
-                pass
-            else:
-                raise Broken("translator:" + rel + ":reverse_circuit", "unrecognised %s=%s" % (k.arg, u(k.value)))
+            for kv in leaves(k.value):
+                if u(kv) in ("self.input_states", "self.output_states"):
+                    io_shared = True
+                elif copy_src(kv) == "self." + k.arg or fresh_expr(kv):
+                    pass
+                else:
+                    raise Broken("translator:" + rel + ":reverse_circuit", "unrecognised %s=%s" % (k.arg, u(kv)))
     F["f_reverse_copy"] = bool(gates_copied and not io_shared)
     _w("f_reverse_copy", rel, _last_assign(fn, rn + ".gates"), "(and input_states=/output_states= of the constructor, line %d)" % ctor[0].lineno)
     # add_circuit(self, qc, ...): loop over the gates of the circuit that is passed in
@@ -202,7 +223,7 @@ def translate():
     binds = {}
     for s_ in ast.walk(fn):
         if isinstance(s_, ast.Assign) and len(s_.targets) == 1 and isinstance(s_.targets[0], ast.Name):
-            ok_ = isinstance(s_.value, (ast.ListComp, ast.List)) or (isinstance(s_.value, ast.Constant) and s_.value.value is None)
+            ok_ = fresh_expr(s_.value)
             binds[s_.targets[0].id] = binds.get(s_.targets[0].id, True) and ok_
     fresh_lists = True
     arg_copy = None
@@ -214,7 +235,7 @@ def translate():
                 v = k.value
                 if isinstance(v, ast.Name) and binds.get(v.id, False):
                     continue
-                if isinstance(v, (ast.ListComp, ast.List)):
+                if fresh_expr(v):
                     continue
                 fresh_lists = False
             if k.arg == "arg_value":
@@ -307,8 +328,7 @@ def translate():
     cb = [s for s in ast.walk(fn) if assign_to(s, "self.cbits")]
     kinds = []
     pset = set(params(fn))
-    for s in cb:
-        v = s.value
+    for v in [x for s in cb for x in leaves(s.value)]:
         if isinstance(v, ast.Name) and v.id in pset:
             kinds.append("ref")
         elif copy_src(v) in pset:
